@@ -29,13 +29,13 @@ def stream_of(recs):
     return cat('b', *ps)
 
 
-def roundtrip(bounds, blocked, api):
+def roundtrip(bounds, blocked, api, lo=1):
     nblocks = (sum(bounds) + 4 * len(bounds) + 4) // 1012 + 2
 
     def h():
         core.FUEL.set(nblocks + 4)
         m = M().mciipm
-        ns = [sym_int('len%d' % i, 1, b) for i, b in enumerate(bounds)]
+        ns = [sym_int('len%d' % i, lo, b) for i, b in enumerate(bounds)]
         recs = [Source('rec%d' % i, 'b', n).rope() for i, n in enumerate(ns)]
         def rp():
             return {'kind': 'roundtrip', 'args': {'lengths': [ev(n) for n in ns], 'blocked': blocked, 'api': api,
@@ -58,6 +58,9 @@ def roundtrip(bounds, blocked, api):
             w.close()
             data = f.getvalue()
             require(same_int(f.pos, 0), 'file not rewound by close', key='C03/rewind', replay=rp)
+        elif api == 'func-iter':
+            # the parameter is documented as an iterable of records: a one-shot iterator / generator is as good as a list
+            data = m.vbs_list_to_bytes(iter(list(recs)) if len(recs) == 1 else (r for r in recs), blocked=blocked)
         else:
             data = m.vbs_list_to_bytes(recs, blocked=blocked)
             core.FUEL.set(nblocks + 4)
@@ -158,6 +161,9 @@ def obligations(tier):
     for blocked in (False, True):
         obs.append(Ob('rt1-with-close/%s' % ('blocked' if blocked else 'unblocked'), roundtrip([MAXREC if not q else 2500], blocked, 'with-close'), 300,
                       'one record written inside `with VbsWriter(...)` with an explicit close() before the block ends (close reached twice)', _funcs))
+    for blocked in (False, True):
+        obs.append(Ob('rt2/%s/func-iter' % ('blocked' if blocked else 'unblocked'), roundtrip([1200, 1200], blocked, 'func-iter'), 300,
+                      'two records of 1..1200 bytes handed to vbs_list_to_bytes as a generator (one record: as an iterator)', _funcs))
     obs.append(Ob('default-reader/unblocked', default_reader(3000 if q else 6000), 300,
                   'one record of any length and any content (bytes at the offsets a blocking probe would inspect go through the peek table), '
                   'written and read back through the convenience functions with no options', _funcs))
